@@ -404,16 +404,34 @@ impl<'a, R: Resolve, U: Updater> Cloner for Importer<'a, R, U> {
     fn clone_rcref<T: DeepClone + ObjectWrite + DataSize>(&mut self, old: &RcRef<T>) -> Result<RcRef<T>> {
         let old_ref = old.get_ref().get_inner();
         if let Some(&new_ref) = self.map.get(&old_ref) {
-            let arc = self.rcrefs.get(&new_ref).unwrap().clone().downcast()?;
-            return Ok(RcRef::new(new_ref, arc));
+            if let Some(any) = self.rcrefs.get(&new_ref) {
+                let arc = any.clone().downcast()?;
+                return Ok(RcRef::new(new_ref, arc));
+            }
+            // the object was copied through clone_ref / clone_plainref, or is still being copied
+            // further up the call stack: no typed value is recorded for it.  Build the typed value
+            // for this handle only; the object itself keeps its single copy.
+            let data = old.data().deep_clone(self)?;
+            return Ok(RcRef::new(new_ref, Shared::new(data)));
         }
 
-        let new = old.data().deep_clone(self)?;
-        let new = self.updater.create::<T>(new)?;
-        self.rcrefs.insert(new.get_ref().get_inner(), AnySync::new(new.data().clone()));
-        self.map.insert(old_ref, new.get_ref().get_inner());
+        // reserve the new id and memoise it before descending (see clone_ref)
+        let promise = self.updater.promise::<Primitive>();
+        let new_ref = promise.get_inner();
+        self.map.insert(old_ref, new_ref);
 
-        Ok(new)
+        match old.data().deep_clone(self) {
+            Ok(data) => {
+                let new = self.updater.update::<T>(new_ref, data)?;
+                self.rcrefs.insert(new_ref, AnySync::new(new.data().clone()));
+                Ok(new)
+            }
+            Err(e) => {
+                self.map.remove(&old_ref);
+                self.updater.update(new_ref, Primitive::Null)?;
+                Err(e)
+            }
+        }
     }
     fn clone_shared<T: DeepClone>(&mut self, old: &Shared<T>) -> Result<Shared<T>> {
         let key = &**old as *const T as usize;
